@@ -603,7 +603,8 @@ SPEC = PropSpec(
                  "bound (all assignments); DiscreteLookup incl. falsy lookup values. Results must be the bool "
                  "objects True/False. Does not decide literal coercion for bytes values."
                  ' R6.xml: criteria as declared in a document keep their literal exactly as written (blank padding, TRUE/False labels); R6.e2: the second end-to-end document of C01, also with DEBUG logging switched on.'
-                 ' R6.e3: the hand-written document of R1.e3 (zero-padded decimal literals, two comparisons on one parameter in one list).'),
+                 ' R6.e3: the hand-written document of R1.e3 (zero-padded decimal literals, two comparisons on one parameter in one list).'
+                 ' R6.cond also takes literals given as objects (int / float / bool) and integers beyond 2**53; R6.xml the four xs:boolean spellings of useCalibratedValue; R6.bool the evaluation order of groups (a member that already decides the group shields later members that name absent parameters).'),
     rule_doc=("R6.1 one obligation per spelling; R6.cmp per (value kind, spelling) over all (value, literal, selector) "
               "combinations; R6.cond per (kind pair, spelling); R6.bool per tree shape over all assignments; "
               "R6.lookup; R6.2 per evaluator."),
